@@ -305,8 +305,35 @@ def integer_abscissae(c, rng):
     return c
 
 
+YDTYPES = [("uint8", 2 ** 8), ("uint16", 2 ** 16), ("uint32", 2 ** 32), ("int16", 2 ** 15), ("int32", 2 ** 31)]
+
+
+def integer_reference_values(c, rng):
+    """the same request with reference values that are whole numbers held in a narrow / unsigned NumPy dtype (32-bit
+    octet counters, 16-bit gauges) - half of the time at the top of the dtype's range, where every reading fits and the
+    sum of two neighbouring readings does not.  The reference integrals are defined on the numbers."""
+    from math import lcm
+    vals_ = [Fraction(v) for v in c["yref"]]
+    m = 1
+    for v in vals_:
+        m = lcm(m, v.denominator)
+    lo = min(vals_)
+    top = (max(vals_) - lo) * m
+    fits = [(n, cap) for n, cap in YDTYPES if top + 20 < cap]
+    if m > 2 ** 12 or not fits:
+        return c
+    name, cap = rng.choice(fits)
+    off = rng.choice([0, 1, 5]) if rng.random() < 0.4 else cap - 1 - int(top) - rng.choice([0, 0, 1, 5])
+    c = dict(c)
+    c["yref"] = [str((v - lo) * m + off) for v in vals_]
+    c["yrefdtype"] = name
+    return c
+
+
 def cases(rng, tier):
     for c in _cases(rng, tier):
+        if c.get("kind") in ("valid", "degenerate") and not c.get("long") and "yrefdtype" not in c and rng.random() < 0.08:
+            c = integer_reference_values(c, rng)
         if (c.get("kind") in ("valid", "degenerate", "interval") and not c.get("long") and "xdtype" not in c
                 and rng.random() < 0.12):
             c = integer_abscissae(c, rng)
@@ -428,7 +455,7 @@ def run_impl(c):
         with warnings.catch_warnings():
             warnings.simplefilter("ignore")
             r = integral_matching_reference_stretch(
-                S.arr(floats(x), dtype=c.get("xdtype")), S.arr(floats(y)), S.arr(floats(xref), dtype=c.get("xdtype")), S.arr(floats(yref)),
+                S.arr(floats(x), dtype=c.get("xdtype")), S.arr(floats(y)), S.arr(floats(xref), dtype=c.get("xdtype")), S.arr(floats(yref), dtype=c.get("yrefdtype")),
                 fixed_points_finding_strategy=S.text(c["strategy"], rep), target_function_integral_method=S.text(c["target"], rep),
                 reference_function_integral_method=S.text(c["ref"], rep), alpha=c["alpha"], **kw)
         return {"ok": [float(v) for v in r], "type": type(r).__name__}
